@@ -11,8 +11,13 @@ round trip, of `Model/Grammar.lean` to formulas.py:
   `str(f)` against `strItems`, `formula(str(f)).structure` against the model's parse of its own
   print, `repr`, named formulas; public table and a private table.
 
+* histories: formulas with ions kept while every (element, charge) pair of the table (and isotope ions
+  at the lowest / highest charge of each element) is printed and parsed back, then checked again;
+  a formula whose print equals an earlier parsed string without its blanks ('CaCO3 6H2O' / 'CaCO36H2O').
+
 Direct oracle (no model, no pyparsing): `formula(str(f)).structure` must be `f.structure` with
-every count rounded to six significant digits by exact rational arithmetic, same nesting.
+every count rounded to six significant digits by exact rational arithmetic, same nesting, and the
+atoms of the parse are the very atom objects of f (the table's singletons).
 """
 from __future__ import annotations
 
@@ -285,6 +290,17 @@ def check_formulas(run: Run, tname, ref, tbl, prefix, items):
         elif (p[0] == "OK") != (m[0] == "OK") and s_py == s_model:
             run.disagree("parse-of-print", inp, m[0], p[0])
         # ---- the property itself on the real code
+        if p[0] == "OK":
+            # "the same atoms": atoms are the table's own objects (formula.atoms is keyed by them and
+            # Formula.__eq__ compares them), so the parse of the print names the very objects f holds
+            mine = {}
+            for a in f.atoms:
+                mine.setdefault(G.key_of(a), a)
+            other = [k for k, a in ((G.key_of(a), a) for a in p[2].atoms) if k in mine and mine[k] is not a]
+            if other:
+                run.violation("formula(str(f)) = %r names atom objects other than those of f for %s (so it does not "
+                              "compare equal to f and its atoms dict has other keys)" % (s_py, sorted(set(other))[:4]),
+                              inp, kind="other-atom-objects", printed=s_py)
         if p[0] != "OK":
             run.violation("str(f) = %r does not parse (%s)" % (s_py, p[1]), inp, kind="unparseable-print",
                           printed=s_py)
@@ -426,6 +442,132 @@ def chunk_formulas(run: Run, tname, n, maxdepth, corpus):
     check_formulas(run, tname, ref, tbl, prefix, items)
 
 
+def has_ion(s):
+    return any((f[2] != 0) if G.is_key(f) else has_ion(f) for _, f in s)
+
+
+def build(run, tname, tbl, source, s):
+    """formula over the table's own atoms for structure-of-keys `s`; None (and a violation) if the real
+    code cannot form it"""
+    from periodictable.formulas import formula
+    try:
+        return formula(G.struct_objs(s, tbl))
+    except Exception as e:  # noqa
+        run.violation("a formula over atoms the table defines cannot be formed (%s: %s)" % (type(e).__name__, e),
+                      dict(table=tname, source=source, structure=G.show_struct(exact(s)), name=None),
+                      kind="unbuildable")
+        return None
+
+
+def ion_sweep_structs(rng, ref):
+    """every (element, charge) pair of the table's ion lists once (D and T included), and for every element one
+    isotope with the lowest, the highest and one more of its charges; alone or inside a small formula"""
+    keys = []
+    for sym, e in ref.items():
+        if e["z"] < 1:
+            continue
+        for q in e["ions"]:
+            keys.append((e["z"], e["alias"], q))
+        if not e["alias"] and e["isos"] and e["ions"]:
+            a = rng.choice(e["isos"])
+            for q in sorted({min(e["ions"]), max(e["ions"]), rng.choice(e["ions"])}):
+                keys.append((e["z"], a, q))
+    out = []
+    for k in keys:
+        r = rng.random()
+        c = gen_count(rng) if rng.random() < 0.5 else 1
+        if r < 0.4:
+            out.append([(c, k)])
+        elif r < 0.7:
+            out.append([(c, k), (gen_count(rng), gen_key(rng, ref))])
+        else:
+            out.append([(rng.choice([0.5, 2, 3, 0.25]), [(c, k), (rng.randint(1, 6), gen_key(rng, ref))]),
+                        (gen_count(rng), gen_key(rng, ref))])
+    return out
+
+
+def chunk_ion_history(run: Run, tname, n_keep):
+    """a long session: formulas with ions are built and kept, then every ion of the table is used in a
+    formula of its own (each printed and parsed back), then the kept formulas are printed and parsed back"""
+    from periodictable.formulas import formula
+    ref, tbl, prefix = tables(tname)
+    rng = run.rng
+    kept = []
+    while len(kept) < n_keep:
+        if rng.random() < 0.7:
+            st = gen_struct(rng, ref, maxdepth=2)
+            if not has_ion(st):
+                continue
+            f = build(run, tname, tbl, "ion-history", st)
+        else:
+            d = G.gen_compound(rng, ref, maxdepth=2, pb=0.0)
+            if "ion" not in G.features(d):
+                continue
+            try:
+                f = formula(G.text_of(G.render_compound(d)), table=tbl)
+            except Exception:  # noqa  (a generated string that does not parse is C01's business)
+                continue
+        if f is not None:
+            kept.append(f)
+    check_formulas(run, tname, ref, tbl, prefix, [("ion-history:kept,before", f) for f in kept])
+    sweep = [build(run, tname, tbl, "ion-sweep", st) for st in ion_sweep_structs(rng, ref)]
+    sweep = [f for f in sweep if f is not None]
+    run.dist["%s:ion-sweep-formulas" % tname] = len(sweep)
+    check_formulas(run, tname, ref, tbl, prefix, [("ion-sweep", f) for f in sweep])
+    check_formulas(run, tname, ref, tbl, prefix, [("ion-history:kept,after-sweep", f) for f in kept])
+
+
+def key_text(k, ref):
+    """the grammar's spelling of atom key `k`"""
+    z, a, q = k
+    sym = [s for s, e in ref.items() if e["z"] == z and not e["alias"]][0]
+    if z == 1 and a in (2, 3):
+        t = "D" if a == 2 else "T"
+    else:
+        t = sym + ("[%d]" % a if a else "")
+    if q:
+        t += "{%s%s}" % (abs(q) if abs(q) > 1 else "", "+" if q > 0 else "-")
+    return t
+
+
+def chunk_blank_twins(run: Run, tname, n):
+    """parse histories in which an earlier string equals a later one up to blanks: first the documented
+    spelling `group BLANK count group` ('CaCO3 6H2O') is parsed, then a *different* formula whose print is
+    that string without the blank ('CaCO36H2O' = Ca C O36 H2 O, built from atoms) is printed and parsed back"""
+    ref, tbl, prefix = tables(tname)
+    rng = run.rng
+    items = []
+    collide = 0
+
+    def elems(m):
+        return [(rng.choice([None, None, "2", "3", "4", "12", str(rng.randint(2, 40))]), gen_key(rng, ref)) for _ in range(m)]
+
+    fixed = [([(None, (20, 0, 0)), (None, (6, 0, 0)), ("3", (8, 0, 0))], " ", "6", [("2", (1, 0, 0)), (None, (8, 0, 0))]),
+             ([(None, (11, 0, 0)), (None, (17, 0, 0))], "\t", "2", [("2", (1, 0, 0)), (None, (8, 0, 0))])]
+    for i in range(n):
+        if i < len(fixed):
+            e1, blank, lead, e2 = fixed[i]
+        else:
+            e1, e2 = elems(rng.randint(1, 3)), elems(rng.randint(1, 3))
+            blank = rng.choice([" ", " ", "  ", "\t", "\n", " \t"])
+            lead = rng.choice(["2", "3", "6", "10", str(rng.randint(2, 99)), "0.5", "1.5", "2.25", "0.125"])
+        s1 = "".join(key_text(k, ref) + (c or "") for c, k in e1) + blank + lead + "".join(key_text(k, ref) + (c or "") for c, k in e2)
+        G.py_parse(s1, tbl)                       # the earlier parse; what it gives is C01's business
+        joined = (e1[-1][0] or "") + lead
+        num = float(joined) if "." in joined else int(joined)
+        flat = [(int(c or 1), k) for c, k in e1[:-1]] + [(num, e1[-1][1])] + [(int(c or 1), k) for c, k in e2]
+        g = build(run, tname, tbl, "blank-twin", flat)
+        if g is None:
+            continue
+        try:
+            collide += str(g) == "".join(s1.split())
+        except Exception:  # noqa  (reported by check_formulas)
+            pass
+        items.append(("blank-twin", g))
+    run.dist["%s:blank-twin:print equals the earlier string without blanks" % tname] = collide
+    check_formulas(run, tname, ref, tbl, prefix, items)
+
+
 def chunk_g(run: Run, n_random, boundary):
     g_sweep(run, n_random, boundary)
 
@@ -440,10 +582,14 @@ def run(run: Run) -> int:
         tasks = [(chunk_g, (1500, True))]
         tasks += [(chunk_formulas, ("public", 450, 4, i == 0)) for i in range(6)]
         tasks += [(chunk_formulas, ("private", 250, 3, False)) for i in range(2)]
+        tasks += [(chunk_ion_history, ("public", 40)), (chunk_ion_history, ("private", 25))]
+        tasks += [(chunk_blank_twins, ("public", 150)), (chunk_blank_twins, ("private", 60))]
     else:
         tasks = [(chunk_g, (20000, i == 0)) for i in range(8)]
         tasks += [(chunk_formulas, ("public", 2500, 4 + i % 3, i == 0)) for i in range(72)]
         tasks += [(chunk_formulas, ("private", 2000, 3 + i % 2, False)) for i in range(16)]
+        tasks += [(chunk_ion_history, ("public", 200)) for i in range(4)] + [(chunk_ion_history, ("private", 100)) for i in range(2)]
+        tasks += [(chunk_blank_twins, ("public", 3000)), (chunk_blank_twins, ("private", 1000))]
     G.run_chunks(run, tasks)
     return run.finish(RULE, assumptions=[
         "pyparsing's combinator semantics are modelled (Model/Grammar.lean), not verified",
